@@ -12,7 +12,7 @@ FIELDS = ["a", "b"]
 ACC_B = "acc_b"
 FIELDS_B = ["p", "q"]
 # value choices of an invocation: they share values field-wise so that deduplication has something to remove and something to keep
-CHOICES = {1: ("%v0", "%v1"), 2: ("%v0", "%v2"), 3: ("IV", "%v1"), 4: ("%v2", "IV")}
+CHOICES = {1: ("%v0", "%v1"), 2: ("%v0", "%v2"), 3: ("IV", "%v1"), 4: ("%v2", "IV"), 5: ("IV", "OIV")}    # OIV: the enclosing loop's variable
 
 
 def tlc_programs(pid, nv, maxnodes, maxdepth, withcalls=True):
@@ -76,7 +76,7 @@ def render(tokens, acc=ACC, fields=FIELDS, launch=()):
     last = [None, 0]       # the most recent state and the nesting level it was defined at; None once it is no longer the current state
     for ti, t in enumerate(tokens):
         if t.startswith("I"):
-            vals = [(ivs[-1] if ivs else "%v2") if v == "IV" else v for v in CHOICES[int(t[1:])]]
+            vals = [(ivs[-1] if ivs else "%v2") if v == "IV" else (ivs[-2] if len(ivs) > 1 else "%v2") if v == "OIV" else v for v in CHOICES[int(t[1:])]]
             used.update(vals)
             s, tk = fresh("s"), fresh("t")
             args = ", ".join(f'"{f}" = {v} : i32' for f, v in zip(FIELDS, vals))
@@ -87,7 +87,7 @@ def render(tokens, acc=ACC, fields=FIELDS, launch=()):
             last[0], last[1] = s, len(kinds)
         elif t.startswith("J"):
             # an invocation on a second accelerator (its own state chain; calls with effects clobber both)
-            vals = CHOICES[int(t[1:])]
+            vals = [(ivs[-1] if ivs else "%v2") if v == "IV" else (ivs[-2] if len(ivs) > 1 else "%v2") if v == "OIV" else v for v in CHOICES[int(t[1:])]]
             used.update(vals)
             s, tk = fresh("u"), fresh("w")
             args = ", ".join(f'"{f}" = {v} : i32' for f, v in zip(FIELDS_B, vals))
